@@ -173,7 +173,7 @@ def run(ctx):
     ctx.assumptions = ['column->spine map from kv/model.py; expected text = kernpy\'s own full export with the unselected columns deleted']
     jobs = []
     for h, d in cfg:
-        shorter, js = X.walk_jobs(h, d, seed, 6, menu, split_at=min(2, d))
+        shorter, js = X.walk_jobs(h, d, seed, 6, menu, split_at=min(2 if d < 5 else 3, d))
         a = Acc()
         for hist in shorter:
             check_doc(a, h, hist)
